@@ -641,7 +641,7 @@ func analyzeDelegators(p *load.Program, r *Roles, res *UnitResult) {
 							okOnce, whyOnce = false, "the path returns without calling "+f.Pretty()+" although that function is not known to be unset on it (the decision to skip the user's function is taken on something else)"
 						}
 					}
-					ruleOnce := "C01.R6"
+					ruleOnce := "C01.R6,C19.R8" // ... and the function configured last is the one that runs, whatever form set it
 					switch m {
 					case "Exec":
 						ruleOnce += ",C06.R8,C07.R7" // every item is processed by the user's function
@@ -679,7 +679,7 @@ func analyzeDelegators(p *load.Program, r *Roles, res *UnitResult) {
 						}
 						if isErrTyped && got.K == eng.KNil {
 							okSeen := pth.e.Eval(pth.st.Facts(), eng.Bin("==", errT, eng.Nil())) == eng.TriTrue
-							col.CheckAt("C04.R6,C02.R3", tn+"."+m+":error-checked", okSeen, pth.pos, "the method reports success without having tested the error its callee returned (a failed attempt would count as a success: no retry, no fallback)", nil)
+							col.CheckAt("C04.R6,C02.R3"+map[bool]string{true: ",C17.R2"}[tn == "CustomNode" && m == "Exec"], tn+"."+m+":error-checked", okSeen, pth.pos, "the method reports success without having tested the error its callee returned (a failed attempt would count as a success: no retry, no fallback)", nil)
 						}
 					}
 				}
@@ -827,7 +827,7 @@ func analyzeMethodSets(p *load.Program, r *Roles, res *UnitResult) {
 					ok = true
 				}
 			}
-			col.Check("C01.R7", rw.name+":"+m+"-resolution", ok, pos, fmt.Sprintf("(*%s).%s resolves to %s.%s (expected one of %v): a phase would silently run a different implementation", rw.name, m, decl, m, allowed), nil)
+			col.Check("C01.R7"+map[string]string{"ExecFallback": ",C02.R4", "GetMaxRetries": ",C02.R1", "GetWait": ",C20.R1", "Exec": ",C02.R3"}[m], rw.name+":"+m+"-resolution", ok, pos, fmt.Sprintf("(*%s).%s resolves to %s.%s (expected one of %v): a phase would silently run a different implementation", rw.name, m, decl, m, allowed), nil)
 		}
 	}
 }
